@@ -38,3 +38,15 @@ Qed.
 
 Lemma split_char_nil c : split_char c [] = [[]].
 Proof. reflexivity. Qed.
+
+(* splitting a stream made of terminated lines and an unterminated rest gives
+   back exactly those lines and that rest, whatever their lengths *)
+Lemma split_char_lines c (ls : list str) rest :
+  Forall (fun l => mem c l = false) ls ->
+  split_char c (concat (map (fun l => l ++ [c]) ls) ++ rest) = ls ++ split_char c rest.
+Proof.
+  induction ls as [|l ls IH]; intro H; [reflexivity|].
+  inversion H as [|? ? Hl Hls]; subst.
+  cbn [map concat]. rewrite <- !app_assoc. cbn [app].
+  rewrite split_char_app by exact Hl. rewrite (IH Hls). reflexivity.
+Qed.
